@@ -32,7 +32,7 @@ PROGS = collections.OrderedDict([
 V1 = {"a": 0.5, "b": 2.0, "P": [[1.0, 2.0]]}
 V2 = {"a": -1.0, "b": 3.0, "P": [[3.0, 4.0]]}
 EVENTS = ["dumps", "read", "graph", "call1", "call2", "call1b", "dumpsI0", "graphI0", "graphI1", "match0", "match1",
-          "mut0:arg", "mut0:list", "mut0:arr", "mut0:opt", "mut0:op", "mut0:gate", "mut0:var", "mut0:modes", "mut1:arg", "mut1:arr"]
+          "mut0:arg", "mut0:list", "mut0:arr", "mut0:opt", "mut0:op", "mut0:gate", "mut0:var", "mut0:modes", "mut0:rrt", "mut1:arg", "mut1:arr"]
 MAXINST = 3
 
 
@@ -132,6 +132,12 @@ def apply_event(T, inst, ev):
             ops[0]["op"] = "Renamed"
         elif kind == "var":
             I.variables["newvar"] = 3
+        elif kind == "rrt":
+            for o in ops:
+                for v in list(o.get("args", [])) + list(o.get("kwargs", {}).values()):
+                    if type(v).__name__ == "RegRefTransform":
+                        v.regrefs.append(42)
+                        v.func_str = "mutated"
         elif kind == "modes":
             ops[-1]["modes"].append(9)
             I.modes.add(9)
